@@ -91,7 +91,7 @@ func World(t *T, s *model.Schema, d *model.Doc, opName string, vars map[string]*
 			if _, dup := w.Outcomes[key]; dup {
 				continue
 			}
-			kinds := []string{"nil", "err", "valerr", "panic_err", "err_foreign"}
+			kinds := []string{"nil", "err", "valerr", "panic_err", "err_foreign", "err_ctx"}
 			if o.Hostile {
 				kinds = append(kinds, "panic_str", "panic_int", "typednil")
 			}
@@ -109,7 +109,7 @@ func World(t *T, s *model.Schema, d *model.Doc, opName string, vars map[string]*
 				if ty.Nullable().Named() {
 					switch {
 					case ty.Name == "Int":
-						kinds = append(kinds, "bigint", "badleaf")
+						kinds = append(kinds, "bigint", "badleaf", "bigtext")
 					case ty.Name == "Float":
 						kinds = append(kinds, "nan", "badleaf", "nantext")
 						if o.AllowInf {
@@ -167,6 +167,9 @@ func World(t *T, s *model.Schema, d *model.Doc, opName string, vars map[string]*
 						ek = "badleaf" // (String / Boolean / ID digest any value: the property is silent there)
 						if et.Name == "Float" && chance(t, 50, "elemNaNText") {
 							ek = "nantext"
+						}
+						if et.Name == "Int" && chance(t, 50, "elemBigText") {
+							ek = pick(t, []string{"bigtext", "bigint"}, "elemBigKind")
 						}
 					}
 				}
